@@ -3,7 +3,8 @@
 // node answered: a typed response, or the node's JSON-RPC error (with its numeric code).  The ghost
 // trace records, per method call of our wrapper, whether a request was sent and what came back; the
 // wrapper's contract (specs/rpc.rs) says it hands exactly that to its caller.
-pub struct Trace<T> {
+pub struct Trace<Q, T> {
+    pub sent: Option<Q>,                                           // the request that went out on the wire
     pub called: bool,                                              // a request was sent on a connection
     pub last: Option<::std::result::Result<T, cln_rpc::RpcError>>, // what the node answered to it
     pub shared_lock_held: bool,                                    // a lock shared between callers is held (must stay false while a request is outstanding)
@@ -19,18 +20,21 @@ pub mod cln_rpc {
         #[verifier::external_body]
         pub fn new(path: String) -> (r: crate::anyhow::Result<ClnRpc>) { unimplemented!() }
         #[verifier::external_body]
-        pub fn call_typed<R: TypedRequest>(&mut self, request: &R, Tracked(t): Tracked<&mut Trace<R::Response>>) -> (r: ::std::result::Result<R::Response, RpcError>)
+        pub fn call_typed<R: TypedRequest>(&mut self, request: &R, Tracked(t): Tracked<&mut Trace<R, R::Response>>) -> (r: ::std::result::Result<R::Response, RpcError>)
             requires
                 !old(t).called,             // #one_request_per_call [C17]
                 !old(t).shared_lock_held,   // #no_lock_shared_between_callers_across_a_request [C14]
-            ensures *final(t) == (Trace { called: true, last: Some(r), ..*old(t) }),
+            ensures *final(t) == (Trace { called: true, last: Some(r), sent: Some(*request), ..*old(t) }),
         { unimplemented!() }
     }
     pub mod model {
         pub mod requests {
             use super::super::TypedRequest;
             pub struct DatastoreRequest { pub _p: u8 } pub struct GetinfoRequest {} pub struct ListdatastoreRequest { pub _p: u8 }
-            pub struct ListsendpaysRequest { pub _p: u8 } pub struct PayRequest { pub _p: u8 } pub struct WaitsendpayRequest { pub _p: u8 }
+            pub struct ListsendpaysRequest { pub _p: u8 } pub struct PayRequest { pub _p: u8 }
+            /// the real fields of cln-rpc 0.1.9 (payment_hash: an opaque Sha256)
+            pub struct Sha256 { pub _p: u8 }
+            pub struct WaitsendpayRequest { pub groupid: Option<u64>, pub partid: Option<u64>, pub timeout: Option<u32>, pub payment_hash: Sha256 }
             impl TypedRequest for DatastoreRequest { type Response = super::responses::DatastoreResponse; }
             impl TypedRequest for GetinfoRequest { type Response = super::responses::GetinfoResponse; }
             impl TypedRequest for ListdatastoreRequest { type Response = super::responses::ListdatastoreResponse; }
